@@ -268,6 +268,99 @@ func (w *Walker) forcedPlacement() string {
 	return ""
 }
 
+// minorPieceMate builds a position with kings and one to three minor pieces only in which the side
+// to move can give mate at once (the defender's king stands in a corner, hemmed in by its own
+// piece): the material is "dead" for every material-only heuristic, yet a mate is on the board.
+func (w *Walker) minorPieceMate() string {
+	minors := []byte{'N', 'B'}
+	for tries := 0; tries < 60000; tries++ {
+		var board [64]byte
+		corner := []int{0, 7, 56, 63}[w.rng.Intn(4)]
+		cf, cr := corner%8, corner/8
+		dk := corner
+		if w.rng.Chance(30) { // next to the corner, on the edge
+			if w.rng.Bool() {
+				dk = cr*8 + cf + map[bool]int{true: 1, false: -1}[cf == 0]
+			} else {
+				dk = (cr+map[bool]int{true: 1, false: -1}[cr == 0])*8 + cf
+			}
+		}
+		near := func() int { // a square within two steps of the defender's king
+			for {
+				f, r := dk%8+w.rng.Intn(5)-2, dk/8+w.rng.Intn(5)-2
+				if f >= 0 && f < 8 && r >= 0 && r < 8 {
+					return r*8 + f
+				}
+			}
+		}
+		board[dk] = 'k'
+		ak := near()
+		if board[ak] != 0 || SquareDistance(Square(ak), Square(dk)) < 2 {
+			continue
+		}
+		board[ak] = 'K'
+		ok := true
+		for i, n := 0, 1+w.rng.Intn(2); i < n && ok; i++ { // attacker's minors
+			sq := near()
+			if w.rng.Bool() {
+				sq = w.rng.Intn(64)
+			}
+			if board[sq] != 0 {
+				ok = false
+			}
+			board[sq] = minors[w.rng.Intn(2)]
+		}
+		for i, n := 0, w.rng.Intn(2)+w.rng.Intn(2); i < n && ok; i++ { // defender's minors, usually beside its king
+			sq := near()
+			if board[sq] != 0 {
+				ok = false
+			}
+			board[sq] = minors[w.rng.Intn(2)] + 32
+		}
+		if !ok {
+			continue
+		}
+		var sb strings.Builder
+		for r := 7; r >= 0; r-- {
+			e := 0
+			for f := 0; f < 8; f++ {
+				if c := board[r*8+f]; c != 0 {
+					if e > 0 {
+						sb.WriteString(strconv.Itoa(e))
+						e = 0
+					}
+					sb.WriteByte(c)
+				} else {
+					e++
+				}
+			}
+			if e > 0 {
+				sb.WriteString(strconv.Itoa(e))
+			}
+			if r > 0 {
+				sb.WriteByte('/')
+			}
+		}
+		fen := sb.String() + " w - - 0 1"
+		if w.rng.Bool() {
+			fen = mirrorFen(fen)
+		}
+		p, err := position.NewPositionFen(fen)
+		if err != nil || p == nil || p.IsAttacked(p.KingSquare(p.NextPlayer().Flip()), p.NextPlayer()) {
+			continue
+		}
+		for _, m := range w.legalMoves(p) {
+			p.DoMove(m)
+			mate := p.HasCheck() && len(w.legalMoves(p)) == 0
+			p.UndoMove()
+			if mate {
+				return fen
+			}
+		}
+	}
+	return ""
+}
+
 // shuffleGame builds a game history in which both sides move an officer (or the king) out and
 // back: one or two full there-and-back cycles from a position S and then 0-3 plies of the next
 // cycle, so that S (or a position of the cycle) has occurred once or twice already and the search
